@@ -4,13 +4,15 @@ import gens
 import pyside as P
 from suites.c03 import impl_parse
 
-POOL = ["4x", "4x + 2", "x +", "2 3", "(", "1.2.3", "x#", "sgn(x)", "xy^2", "8/4/2", "a = b", "", "-3", "5!", "x^", "7.", "2x^2 + 3y", "(x)(y)", "x -"]
+POOL = ["43", "4 3", "1.5", "1 .5", "sgn(x)", "s gn(x)", "sg n(x)", "xy", "x y", "12x", "1 2x", "Sgn(x)", "4x", "4x + 2", "x +", "2 3", "(", "1.2.3", "x#", "sgn(x)", "xy^2", "8/4/2", "a = b", "", "-3", "5!", "x^", "7.", "2x^2 + 3y", "(x)(y)", "x -"]
 
 
 def history(rnd, maxlen=12):
     ops = []
     handed = 0
-    pool = POOL + [gens.valid_expr(rnd, 2) for _ in range(3)] + [gens.soup(rnd, 6)]
+    pool = [rnd.choice(POOL) for _ in range(6)] + [gens.valid_expr(rnd, 2) for _ in range(2)] + [gens.soup(rnd, 6)]
+    for s in list(pool[:5]):
+        pool += gens.space_variants(rnd, s)[:2]
     for _ in range(rnd.randint(1, maxlen)):
         r = rnd.random()
         if r < 0.4:
